@@ -236,6 +236,18 @@ impl<'a, 'b> Gen<'a, 'b> {
     }
 
     fn pick_decl_name(&mut self) -> String {
+        if self.p.shadow && self.t.chance(70) {
+            // redeclare something visible (guaranteed shadowing)
+            let vis: Vec<String> = self
+                .visible()
+                .into_iter()
+                .filter(|v| matches!(v.ty, Ty::Var | Ty::VarArr(_)) && v.protected.is_none())
+                .map(|v| v.name)
+                .collect();
+            if !vis.is_empty() {
+                return vis[self.t.below(vis.len())].clone();
+            }
+        }
         if self.p.shadow && self.t.chance(150) {
             let n = self.p.name_pool[self.t.below(self.p.name_pool.len())];
             // never shadow a protected loop counter or a non-variable with a variable of the same
@@ -482,7 +494,11 @@ impl<'a, 'b> Gen<'a, 'b> {
         let mut syms = Vec::new();
         for _ in 0..n {
             let arr = self.p.arrays && self.t.chance(50);
-            let name = self.pick_decl_name();
+            let mut name = self.pick_decl_name();
+            if syms.iter().any(|s: &DeclSym| s.name == name) {
+                // names within one declaration statement are kept distinct
+                name = self.fresh_name("v");
+            }
             let sid = self.ids.next();
             let sub_id = self.ids.next();
             // Circom (and circomspect) declare the name first and then run the
